@@ -560,3 +560,70 @@ Fixpoint E9_meta_recipients (v : variant) (typed : list bool) : gout :=
   | t :: r => (if t then GPass else match v with AsIs => GPanic 88 | Fixed => GPass end) >>>
               E9_meta_recipients v r
   end.
+
+(* ================= E10  verifiable.ParseCredential: raw type switches (decodeType / decodeContext) and the
+   base-context validation mode (validateBaseContext) *)
+Definition VC_TYPE : string := "VerifiableCredential".
+Definition BASE_CTX : string := "https://www.w3.org/2018/credentials/v1".
+
+(* stringSlice over a decoded JSON array *)
+Fixpoint all_strings (l : list json) : option (list string) :=
+  match l with
+  | [] => Some []
+  | JStr s :: r => match all_strings r with Some t => Some (s :: t) | None => None end
+  | _ :: _ => None
+  end.
+(* decodeType: a string or an array of strings ([None]: member absent or null) *)
+Definition decode_type (t : option json) (k : list string -> gout) : gout :=
+  match t with
+  | Some (JStr s) => k [s]
+  | Some (JArr l) => match all_strings l with Some ss => k ss | None => GRej 101 end
+  | _ => GRej 101
+  end.
+(* decodeContext: a string, or an array whose leading strings are the contexts (objects may follow) *)
+Fixpoint leading_strings (l : list json) : list string :=
+  match l with JStr s :: r => s :: leading_strings r | _ => [] end.
+Definition decode_context (c : option json) (k : list string -> gout) : gout :=
+  match c with
+  | Some (JStr s) => k [s]
+  | Some (JArr l) => k (leading_strings l)
+  | _ => GRej 102
+  end.
+
+(* validateBaseContext:  len(x) > 1 || x[0] != want   (the repaired code tests len(x) != 1) *)
+Definition base_only (v : variant) (l : list string) (want : string) (stage : N) : gout :=
+  guard v (match l with [] => true | _ => false end) stage >>>
+  check (1 <? List.length l)%nat stage >>>
+  idx l 0 100 (fun x => check (negb (String.eqb x want)) stage).
+
+Definition E10 (v : variant) (base_mode : bool) (typ ctx : option json) : gout :=
+  decode_type typ (fun types =>
+    decode_context ctx (fun ctxs =>
+      if base_mode then base_only v types VC_TYPE 103 >>> base_only v ctxs BASE_CTX 104 else GPass)).
+
+(* ================= E11  jwt.Parse: the JOSE header checks behind ParseJWS (checkHeaders / checkTypHeader) *)
+Definition TYPE_JWT : string := "JWT".
+Definition TYPE_SDJWT : string := "SD-JWT".
+
+Definition check_typ (t : json) : gout :=
+  match t with
+  | JStr s =>
+      let chunks := split_on "+"%char s EmptyString in
+      if (1 <? List.length chunks)%nat
+      then idx chunks 1 110 (fun c =>                       (* chunks[1] *)
+             let e := upper c in check (negb (String.eqb e TYPE_JWT || String.eqb e TYPE_SDJWT)) 114)
+      else check (negb (String.eqb s TYPE_JWT)) 115
+  | _ => GRej 113
+  end.
+
+Definition check_headers (h : list (string * json)) : gout :=
+  check (match lookup h "alg" with None => true | Some _ => false end) 112 >>>
+  (match lookup h "typ" with None => GPass | Some t => check_typ t end) >>>
+  check (match lookup h "cty" with Some (JStr c) => String.eqb c TYPE_JWT | _ => false end) 116.
+
+(* jwt.Parse with a verifier = IsCompactJWS, ParseJWS (E4), checkHeaders, PayloadToMap (library: JSON decoding) *)
+Definition E11 (v : variant) (i : e4_in) (payload_ok : bool) : gout :=
+  check (negb (e4_parts i =? 3)%nat) 111 >>>
+  E4 v i >>>
+  (match e4_hdr i with Some h => check_headers h | None => GRej 0 end) >>>
+  lib payload_ok.
